@@ -600,6 +600,10 @@ impl<'a> Ctx<'a> {
         }
         crate::progress::tick();
         let flavour = self.job.flavour.as_str();
+        if !json || family == "prefix" {
+            // binary documents can make a deserialiser allocate or abort: name the exact case for crash attribution
+            crate::progress::set_case(|| json!({"kind":"doc","flavour":flavour,"strkeys":strkeys,"json":json,"bytes":bytes,"family":family,"desc":desc}).to_string());
+        }
         let (_, directed) = loader_for(flavour, strkeys);
         let (generic, r) = run_one(flavour, strkeys, json, bytes);
         self.out.stats.inc("evaluations");
@@ -687,7 +691,7 @@ pub fn sweep(job: &Job, out: &mut Out) {
                     let enc = encode(&doc, false);
                     for pos in 0..enc.len() {
                         for b in 0..=255u8 {
-                            if b != enc[pos] && (thorough || b % 3 == 0 || b < 32 || b > 0xf0) {
+                            if b != enc[pos] && (thorough || b % 3 == 0 || b < 32 || b > 0xf0 || (b & 0x1f) >= 0x17) {
                                 let mut m = enc.clone();
                                 m[pos] = b;
                                 cx.case("cbor-byte", &format!("byte {} := {:#04x}", pos, b), strkeys, false, &m);
